@@ -114,9 +114,13 @@ def main():
         HH = ag.get_Hamiltonian()
         if tensor:
             RT, H2 = ag.get_RelaxationTensor(
-                ta, relaxation_theory="standard_Redfield")
-            calc_kw = dict(relaxation_tensor=RT, effective_hamiltonian=H2)
-        calc = qr.AbsSpectrumCalculator(ta, system=ag, **calc_kw)
+                ta, relaxation_theory="standard_Redfield",
+                time_dependent=(tensor == "td"))
+            calc_kw = dict(relaxation_tensor=RT, effective_hamiltonian=H2,
+                           before=numpy.array(RT._data).copy())
+        calc = qr.AbsSpectrumCalculator(
+            ta, system=ag, **{k: v for k, v in calc_kw.items()
+                              if k != "before"})
         with qr.energy_units("1/cm"):
             calc.bootstrap(rwa=12000.0)
         sp = calc.calculate(raw=raw)
@@ -248,13 +252,13 @@ def main():
                 ck.violation("sum-rule", "aggregate", dict(
                     rp, coupled=I0, uncoupled=IU, err=e), rp)
             # with a supplied relaxation tensor: inputs unchanged, shape
-            if N >= 2:
+            for tkind in (("ti", "td") if N >= 2 else ()):
                 agT, taT = build(N, Ecm, Jcm, dips, reorg, cort, Nt=Nt_s)
                 HT = agT.get_Hamiltonian()
-                axT, dT, kw = spectrum(agT, taT, tensor=True)
+                axT, dT, kw = spectrum(agT, taT, tensor=tkind)
                 RT = kw["relaxation_tensor"]
                 H2 = kw["effective_hamiltonian"]
-                r0 = numpy.array(RT._data).copy()
+                r0 = kw["before"]            # before the first calculation
                 h0 = numpy.array(H2._data).copy()
                 b0 = (RT.get_current_basis(), H2.get_current_basis())
                 calc = qr.AbsSpectrumCalculator(
@@ -263,18 +267,20 @@ def main():
                 with qr.energy_units("1/cm"):
                     calc.bootstrap(rwa=12000.0)
                 sp2 = calc.calculate(raw=True)
-                ck.case("system-unchanged", (s, "tensor"))
+                ck.case("system-unchanged", (s, "tensor", tkind))
                 dr = float(numpy.abs(numpy.array(RT._data) - r0).max()) / \
                     max(1e-300, float(numpy.abs(r0).max()))
                 dh = float(numpy.abs(numpy.array(H2._data) - h0).max())
                 if dr > 1e-10 or dh > 1e-12 or b0 != (
                         RT.get_current_basis(), H2.get_current_basis()):
-                    ck.violation("system-unchanged", "relaxation-tensor",
-                                 dict(rp, dR=dr, dH=dh), rp)
+                    ck.violation("system-unchanged",
+                                 "relaxation-tensor:" + tkind,
+                                 dict(rp, tensor=tkind, dR=dr, dH=dh), rp)
                 e = float(numpy.abs(numpy.array(sp2.data) - dT).max()) / sc
                 if e > 1e-10:
-                    ck.violation("system-unchanged", "second-calculation",
-                                 dict(rp, err=e), rp)
+                    ck.violation("system-unchanged",
+                                 "second-calculation:" + tkind,
+                                 dict(rp, tensor=tkind, err=e), rp)
 
     ck.assume("lines resolved inside the spectral window (the property's "
               "scope); landing-index binding uses a bath-free monomer at "
